@@ -174,6 +174,17 @@ func genC01(rec *lib.Rec, r *lib.Rng, thorough bool) {
 			rec.Op("S", "read nopanic canon "+lim+segsStr(segs), total >= 16)
 			rec.Op("S", "read nopanic copy "+lim+segsStr(segs), total >= 16)
 		}
+		if i%5 == 0 { // a Message / Decoder reused for a second message: nothing of the first may show through
+			segsB, _ := genMessage(r)
+			whole := true
+			for _, s := range append(append([][]byte{}, segs...), segsB...) {
+				whole = whole && len(s)%8 == 0
+			}
+			if whole && len(segs) > 0 && len(segsB) > 0 {
+				rec.Op("S", "read reuse "+r.PickS("reset", "reset", "dec", "pdec")+" "+segsStr(segs)+" "+segsStr(segsB), true)
+				rec.Count("reuse")
+			}
+		}
 		if i%7 == 0 { // framing entry points on arbitrary bytes
 			var raw []byte
 			switch r.Intn(3) {
